@@ -1,14 +1,18 @@
 ------------------------------ MODULE MC_Gossip ------------------------------
 EXTENDS Gossip, Json, TLC
 CONSTANTS MaxOps, MaxPeriodic, MaxFaults, Gen
-VARIABLES nops, nper, nflt, hist
+VARIABLES nops, nper, nflt, hist, mark
 View == <<loc, st, routes, bc, gs, up, members, live, wire, nops, nper, nflt>>        \* the clock value itself is irrelevant up to order: kept via st
-Emit(a) == /\ hist' = IF Gen = "sim" THEN Append(hist, a) ELSE hist
-MCInit == GInit /\ nops = 0 /\ nper = 0 /\ nflt = 0 /\ hist = <<>>
+Sim == Gen \in {"sim", "simmark"}
+Emit(a) == /\ hist' = IF Sim THEN Append(hist, a) ELSE hist
+MCInit == GInit /\ nops = 0 /\ nper = 0 /\ nflt = 0 /\ hist = <<>> /\ mark = FALSE
 (* schedule generation only: break a link when it matters (something is routed and nothing is in flight) *)
-FaultOK == Gen # "sim" \/ (Quiescent /\ \E b \in Brokers : routes[b] # {})
-PickW(seq) == IF Gen = "sim" THEN {seq[RandomElement(1..Len(seq))]} ELSE {seq[i] : i \in 1..Len(seq)}
-MCNext ==
+FaultOK == ~Sim \/ (Quiescent /\ \E b \in Brokers : routes[b] # {})
+PickW(seq) == IF Sim THEN {seq[RandomElement(1..Len(seq))]} ELSE {seq[i] : i \in 1..Len(seq)}
+(* schedule generation "simmark": keep only behaviours in which one broker holds DIFFERENT coalesced payloads on two of
+   its links at the same time (C13: "the same payload object queued on several links" followed by different updates) *)
+Interesting == \E b, n1, n2 \in Brokers : n1 # n2 /\ live[b][n1] = "snap" /\ live[b][n2] = "snap" /\ gs[b][n1] # gs[b][n2]
+MCStep ==
     \/ \E b \in Brokers, s \in Ssids : /\ nops < MaxOps /\ nops' = nops + 1 /\ UNCHANGED <<nper, nflt>>
                                        /\ \/ ClientSub(b, s)   /\ Emit([n |-> "sub", b |-> b, s |-> s])
                                           \/ ClientUnsub(b, s) /\ Emit([n |-> "unsub", b |-> b, s |-> s])
@@ -21,5 +25,6 @@ MCNext ==
     \/ \E b, n \in Brokers : /\ UNCHANGED <<nops, nper, nflt>>
                              /\ \/ Pick(b, n)    /\ Emit([n |-> "pick", b |-> b, to |-> n])
                                 \/ Deliver(b, n) /\ Emit([n |-> "deliver", b |-> b, to |-> n])
-Dump == Gen # "sim" \/ Len(hist) < 2 \/ PrintT(<<"BEH", ToJson(hist)>>)
+MCNext == MCStep /\ mark' = (mark \/ Interesting')
+Dump == ~Sim \/ Len(hist) < 2 \/ (Gen = "simmark" /\ ~mark) \/ PrintT(<<"BEH", ToJson(hist)>>)
 =============================================================================
